@@ -187,6 +187,18 @@ reg("C02", sim(
     "DESIGN.md §4 C02"))
 
 
+reg("C05", sim(
+    "fault_enumeration",
+    "For fragment sizes {8, 12, 64, 65, 1344, 65000} (thorough adds 9, 10, 16, 63, 64999) and serialized sample sizes k*f-4, k*f, k*f+4 "
+    "for k = 1..4 (k ≤ 2 for the large fragment sizes), reliable and best-effort: the first transmission of every DATA_FRAG / DATA "
+    "datagram of the sample is captured in flight and then delivered under EVERY combination of per-datagram fate {deliver, drop, "
+    "duplicate} and EVERY delivery order (all k! permutations for ≤ 4 datagrams); afterwards the real protocol (HEARTBEAT, "
+    "NACK_FRAG, ACKNACK, retransmission) runs on a perfect network. Also two fragmented samples whose fragments interleave. "
+    "Oracle: every presented sample is byte-identical to what was written (position-dependent pattern) and presented at most once; "
+    "reliable: every sample is presented within 3 s.",
+    "full enumeration of choice vectors: 3^k fates x k! orders per (fragment size, sample size, reliability); distinct = distinct observation traces",
+    "DESIGN.md §4 C05", floor=(10000, 1000)))
+
 reg("C03", sim(
     "fault_enumeration",
     "wait_for_acknowledgments is called in scenarios with one reliable reader, two reliable readers, a best-effort reader next "
@@ -357,7 +369,7 @@ reg("C15", sim(
     "pattern are skipped: undefined by DDS): matched on both sides iff compatible and partitions match under the DDS rule "
     "(reference: a 40-line textbook fnmatch), and an incompatible pair is notified once through on_offered_incompatible_qos "
     "naming the offending policy.",
-    "(a) 296 policy value pairs x 256 subsets x 2 functions; (b) full enumeration of OP choice vectors; distinct = (policy, verdict, "
+    "(a) 216 policy value pairs x 256 subsets x 2 functions; (b) full enumeration of OP choice vectors; distinct = (policy, verdict, "
     "number of other incompatible policies) classes + distinct observation traces",
     "DESIGN.md §4 C15", floor=(20000, 50)))
 
